@@ -16,6 +16,9 @@ SCRIPT = os.path.join(os.path.dirname(HERE), "replay", "bounded.py")
 TABLE = [
     # (battery, properties, functions it stands in for)
     ("c02", ["C02"], "close/reopen of a file with every entity kind; two-handle histories (H5Group handle caching)"),
+    ("c02live", ["C02"], "state kept on Python objects anywhere in the library (caches of extents, shapes, column names, ids, parents, "
+                         "bound HDF5 groups): every object fetched and fully read BEFORE a change made through other handles is "
+                         "compared with a fresh one after each of 23 changes, finally with the reopened file"),
     ("c03", ["C03"], "creation paths (create_new, id assignment), H5Group lookup primitives and caches: create / lookup / delete / "
                      "re-create histories on one live container object"),
     ("c04", ["C04"], "the whole delete path (H5Group.delete_all traversal, H5Group.delete and its clean-up): the rest of the file "
